@@ -100,6 +100,10 @@ func Bytes(b []byte) string {
 	return strconv.Quote(string(b))
 }
 
+// Content renders byte contents only: nil and empty are the same observable
+// value for functions whose contract is "returns a copy of src with…".
+func Content(b []byte) string { return strconv.Quote(string(b)) }
+
 func Bytes2(a [][]byte) string {
 	if a == nil {
 		return "nil"
@@ -233,12 +237,12 @@ func Replace(re RE, h []byte, tmpl string, n int) []Rec {
 	ups := func(x string) string { return "<" + x + ">" }
 	var recs []Rec
 	recs = append(recs,
-		Rec{"ReplaceAll", Call(func() string { return Bytes(re.ReplaceAll(h, t)) })},
+		Rec{"ReplaceAll", Call(func() string { return Content(re.ReplaceAll(h, t)) })},
 		Rec{"ReplaceAllString", Call(func() string { return strconv.Quote(re.ReplaceAllString(s, tmpl)) })},
-		Rec{"ReplaceAllLiteral", Call(func() string { return Bytes(re.ReplaceAllLiteral(h, t)) })},
+		Rec{"ReplaceAllLiteral", Call(func() string { return Content(re.ReplaceAllLiteral(h, t)) })},
 		Rec{"ReplaceAllLiteralString", Call(func() string { return strconv.Quote(re.ReplaceAllLiteralString(s, tmpl)) })},
-		Rec{"ReplaceAllFunc", Call(func() string { return Bytes(re.ReplaceAllFunc(h, up)) })},
-		Rec{"ReplaceAllFunc/empty", Call(func() string { return Bytes(re.ReplaceAllFunc(h, func([]byte) []byte { return nil })) })},
+		Rec{"ReplaceAllFunc", Call(func() string { return Content(re.ReplaceAllFunc(h, up)) })},
+		Rec{"ReplaceAllFunc/empty", Call(func() string { return Content(re.ReplaceAllFunc(h, func([]byte) []byte { return nil })) })},
 		Rec{"ReplaceAllStringFunc", Call(func() string { return strconv.Quote(re.ReplaceAllStringFunc(s, ups)) })},
 		Rec{"Split(" + strconv.Itoa(n) + ")", Call(func() string { return Strs(re.Split(s, n)) })},
 	)
@@ -249,7 +253,7 @@ func Replace(re RE, h []byte, tmpl string, n int) []Rec {
 // sides expand the same vector: isolates template handling).
 func Expand(re RE, h []byte, tmpl string, match []int) []Rec {
 	return []Rec{
-		{"Expand", Call(func() string { return Bytes(re.Expand([]byte("dst:"), []byte(tmpl), h, match)) })},
-		{"ExpandString", Call(func() string { return Bytes(re.ExpandString(nil, tmpl, string(h), match)) })},
+		{"Expand", Call(func() string { return Content(re.Expand([]byte("dst:"), []byte(tmpl), h, match)) })},
+		{"ExpandString", Call(func() string { return Content(re.ExpandString(nil, tmpl, string(h), match)) })},
 	}
 }
